@@ -339,7 +339,8 @@ class Ctx:
             print("VIOLATION property=%s replay=%s" % (self.prop, path))
             print("  what: %s" % v["what"][:600])
         self.write_evidence(len(unknown))
-        shutil.rmtree(self.work, ignore_errors=True)
+        if os.environ.get("VERIF_KEEP_WORK") != "1":
+            shutil.rmtree(self.work, ignore_errors=True)
         return 1 if unknown else 0
 
     def write_evidence(self, nviol):
